@@ -174,6 +174,16 @@ def case(rep, drv, rnd, i, tier):
         if (proper and vals4 != [expected_python(lit)]) or api4 != [[], [], ['a']]:
             rep.violation(dict(payload, kind='to_python on an engine used again after clear()', got=repr(vals4)[:200], api=repr(api4)))
             return
+    if i % 50 == 0:
+        # ... also after very many other atoms have been made
+        ym = E.YP()
+        first = ym.atom('red')
+        nil = ym.atom('[]')
+        for k_ in range(9000):
+            ym.atom('filler%d' % k_)
+        if ym.atom('red') is not first or ym.atom('[]') is not nil or ym.atom('filler0') is not ym.atom('filler0'):
+            rep.violation(dict(payload, kind='atom interning: after 9000 further atoms the atom of a name is another object'))
+            return
     # atoms: one object per name per engine
     for a in [x for x in [lit] if x[0] == 'A']:
         if yp.atom(a[1]) is not yp.atom(a[1]) or yp.atom(a[1]) is y2.atom(a[1]):
